@@ -8,7 +8,7 @@
      spec_from        the whole property = judge spec_ok false (what check_case evaluates on gorm's answers)
      hist_known h     h puts the book into one of the five known-finding classes (input only)  *)
 From Verif Require Import Base C17_Model C17_Check C17_Known C17_Proofs C17_Proofs2 C17_Proofs3
-  C17_Exh1 C17_Exh3 C17_Exh7.
+  C17_Plugin5 C17_Exh1 C17_Exh3 C17_Exh7.
 From Coq Require Import Permutation.
 Open Scope string_scope.
 Open Scope list_scope.
@@ -83,6 +83,46 @@ Print Assumptions c17_sides_refuted.
 Theorem c17_star_unsat_refuted : exists h, in_domain h = true /\ runs cl_sides true h = false.
 Proof. exists w_star_unsat. pose proof star_unsat_silent as H. tauto. Qed.
 Print Assumptions c17_star_unsat_refuted.
+
+(* ---- partial, unbounded: the WHOLE property on the plugin domain ----------------------------
+   bs = the default registration (plain Register calls, with or without a Match guard), us = ANY
+   number of user calls Register / Before(t).Register / After(t).Register / Before(a).After(b).Register /
+   Replace / Remove whose targets t name a built-in callback (live, replaced or removed) or a name under
+   which nothing is ever registered, never "*" (plugin_hist).  Then, on the model of callbacks.go, every
+   in-domain call either returns an error or leaves a pipeline that fires each live callback once, runs the
+   handler registered last, honours every Before/After, keeps the built-in order and, for Replace, the
+   position; the recursion always ends.  This is exactly the missing hypothesis of the refuted clauses:
+   the witnesses above need a target that is a user callback or "*". *)
+Theorem c17_plugin_domain_correct : forall bs us,
+  plugin_hist bs us = true ->
+  spec_from r0 0%N None O (bs ++ us) (run (bs ++ us)) = true.
+Proof. exact plugin_correct. Qed.
+Print Assumptions c17_plugin_domain_correct.
+
+(* the same, clause by clause: no crash / once / handler / sides / built-in order / Replace position *)
+Theorem c17_plugin_domain_clauses : forall bs us,
+  plugin_hist bs us = true ->
+  let h := bs ++ us in
+  runs cl_true false h = true /\ runs cl_once true h = true /\ runs cl_handler true h = true
+  /\ runs cl_sides true h = true /\ runs cl_builtin true h = true /\ runs cl_replace true h = true.
+Proof.
+  intros bs us H h. pose proof (plugin_correct bs us H) as P. fold h in P.
+  rewrite spec_decomposes in P. unfold runs.
+  repeat (apply andb_true_iff in P; destruct P as [? P]). auto 10.
+Qed.
+Print Assumptions c17_plugin_domain_clauses.
+
+(* the hypothesis is satisfiable by a non-trivial history: two plugins around built-ins of the query
+   pipeline, a built-in replaced, another removed, a request naming the removed one *)
+Example plugin_example :
+  let bs := builtin_steps ["gorm:query"; "gorm:preload"; "gorm:after_query"] in
+  let us := [reg "p1" "gorm:query" ""; reg "p2" "gorm:after_query" "gorm:query";
+             mk_step KReplace "gorm:preload" "" "" false true; mk_step KRemove "gorm:query" "" "" false true;
+             reg "p3" "" "gorm:query"; reg "p4" "zz:unknown" "gorm:preload"] in
+  plugin_hist bs us = true /\ in_domain (bs ++ us) = true
+  /\ last (run (bs ++ us)) OCrash
+     = OOk [("gorm:preload", 5%N); ("p2", 4%N); ("gorm:after_query", 2%N); ("p1", 3%N); ("p3", 7%N); ("p4", 8%N)].
+Proof. vm_compute. auto. Qed.
 
 (* ---- bounded-exhaustive: every in-domain history of at most 3 calls (the bound of the property
    text) over {built-in names, user names (also before they are registered), an unknown name, "*"}
